@@ -1,0 +1,238 @@
+//go:build verif
+// +build verif
+
+package gmtls
+
+import "errors"
+
+// Test-only exports for the external verification harness (build tag "verif").
+// Thin wrappers around unexported code; no behaviour of the package changes.
+
+// VerifHandshakeKinds lists the handshake message decoders reachable through VerifUnmarshalHandshake.
+var VerifHandshakeKinds = []string{
+	"clientHello", "serverHello", "certificate", "serverKeyExchange", "certificateStatus", "serverHelloDone",
+	"clientKeyExchange", "finished", "nextProto", "certificateRequest", "certificateRequest12", "certificateVerify",
+	"certificateVerify12", "newSessionTicket", "helloRequest", "certificateRequestGM",
+}
+
+type verifMsg interface {
+	marshal() []byte
+	unmarshal([]byte) bool
+}
+
+func verifNewMsg(kind string) verifMsg {
+	switch kind {
+	case "clientHello":
+		return new(clientHelloMsg)
+	case "serverHello":
+		return new(serverHelloMsg)
+	case "certificate":
+		return new(certificateMsg)
+	case "serverKeyExchange":
+		return new(serverKeyExchangeMsg)
+	case "certificateStatus":
+		return new(certificateStatusMsg)
+	case "serverHelloDone":
+		return new(serverHelloDoneMsg)
+	case "clientKeyExchange":
+		return new(clientKeyExchangeMsg)
+	case "finished":
+		return new(finishedMsg)
+	case "nextProto":
+		return new(nextProtoMsg)
+	case "certificateRequest":
+		return new(certificateRequestMsg)
+	case "certificateRequest12":
+		return &certificateRequestMsg{hasSignatureAndHash: true}
+	case "certificateVerify":
+		return new(certificateVerifyMsg)
+	case "certificateVerify12":
+		return &certificateVerifyMsg{hasSignatureAndHash: true}
+	case "newSessionTicket":
+		return new(newSessionTicketMsg)
+	case "helloRequest":
+		return new(helloRequestMsg)
+	case "certificateRequestGM":
+		return new(certificateRequestMsgGM)
+	}
+	return nil
+}
+
+// VerifUnmarshalHandshake feeds data to the unmarshal method of the named handshake message type.
+func VerifUnmarshalHandshake(kind string, data []byte) (ok bool, known bool) {
+	m := verifNewMsg(kind)
+	if m == nil {
+		return false, false
+	}
+	return m.unmarshal(data), true
+}
+
+// VerifSampleHandshake returns a valid encoding of the named message type, produced by its marshal method.
+func VerifSampleHandshake(kind string, blob []byte) []byte {
+	cut := func(n int) []byte {
+		if len(blob) < n {
+			n = len(blob)
+		}
+		return blob[:n]
+	}
+	switch kind {
+	case "clientHello":
+		m := &clientHelloMsg{vers: VersionTLS12, random: append(make([]byte, 32-len(cut(32))), cut(32)...), sessionId: cut(16),
+			cipherSuites: []uint16{GMTLS_ECC_SM4_CBC_SM3, GMTLS_ECC_SM4_GCM_SM3, TLS_RSA_WITH_AES_128_CBC_SHA}, compressionMethods: []uint8{0},
+			nextProtoNeg: true, serverName: "verif.example", ocspStapling: true, scts: true, supportedCurves: []CurveID{CurveP256, CurveP384},
+			supportedPoints: []uint8{0}, ticketSupported: true, sessionTicket: cut(40),
+			supportedSignatureAlgorithms: []SignatureScheme{PKCS1WithSHA256, ECDSAWithP256AndSHA256},
+			secureRenegotiationSupported: true, alpnProtocols: []string{"h2", "http/1.1"}}
+		return m.marshal()
+	case "serverHello":
+		m := &serverHelloMsg{vers: VersionGMSSL, random: append(make([]byte, 32-len(cut(32))), cut(32)...), sessionId: cut(32), cipherSuite: GMTLS_ECC_SM4_CBC_SM3,
+			nextProtoNeg: true, nextProtos: []string{"a", "bb"}, ocspStapling: true, scts: [][]byte{cut(10), cut(3)}, ticketSupported: true,
+			secureRenegotiationSupported: true, alpnProtocol: "h2"}
+		return m.marshal()
+	case "certificate":
+		return (&certificateMsg{certificates: [][]byte{cut(300), cut(120)}}).marshal()
+	case "serverKeyExchange":
+		return (&serverKeyExchangeMsg{key: cut(75)}).marshal()
+	case "certificateStatus":
+		return (&certificateStatusMsg{statusType: statusTypeOCSP, response: cut(50)}).marshal()
+	case "serverHelloDone":
+		return (&serverHelloDoneMsg{}).marshal()
+	case "clientKeyExchange":
+		return (&clientKeyExchangeMsg{ciphertext: cut(160)}).marshal()
+	case "finished":
+		return (&finishedMsg{verifyData: cut(12)}).marshal()
+	case "nextProto":
+		return (&nextProtoMsg{proto: "http/1.1"}).marshal()
+	case "certificateRequest":
+		return (&certificateRequestMsg{certificateTypes: []byte{1, 64}, certificateAuthorities: [][]byte{cut(40), cut(7)}}).marshal()
+	case "certificateRequest12":
+		return (&certificateRequestMsg{hasSignatureAndHash: true, certificateTypes: []byte{1, 64}, supportedSignatureAlgorithms: []SignatureScheme{PKCS1WithSHA256, ECDSAWithP256AndSHA256},
+			certificateAuthorities: [][]byte{cut(40)}}).marshal()
+	case "certificateVerify":
+		return (&certificateVerifyMsg{signature: cut(71)}).marshal()
+	case "certificateVerify12":
+		return (&certificateVerifyMsg{hasSignatureAndHash: true, signatureAlgorithm: ECDSAWithP256AndSHA256, signature: cut(71)}).marshal()
+	case "newSessionTicket":
+		return (&newSessionTicketMsg{ticket: cut(180)}).marshal()
+	case "helloRequest":
+		return (&helloRequestMsg{}).marshal()
+	case "certificateRequestGM":
+		return (&certificateRequestMsgGM{certificateTypes: []byte{1, 64}, certificateAuthorities: [][]byte{cut(40), cut(9)}}).marshal()
+	}
+	return nil
+}
+
+// VerifSessionState marshals / unmarshals the server-side session state carried in tickets.
+func VerifSessionStateMarshal(vers, suite uint16, master []byte, certs [][]byte) []byte {
+	return (&sessionState{vers: vers, cipherSuite: suite, masterSecret: master, certificates: certs}).marshal()
+}
+
+func VerifSessionStateUnmarshal(data []byte) bool { return new(sessionState).unmarshal(data) }
+
+// VerifEncryptTicket / VerifDecryptTicket run the ticket protection with the ticket keys of cfg.
+func VerifEncryptTicket(cfg *Config, vers, suite uint16, master []byte, certs [][]byte) ([]byte, error) {
+	c := &Conn{config: cfg}
+	return c.encryptTicket(&sessionState{vers: vers, cipherSuite: suite, masterSecret: master, certificates: certs})
+}
+
+// VerifDecryptTicket returns whether the ticket was accepted and, if so, the fields it carried.
+func VerifDecryptTicket(cfg *Config, ticket []byte) (ok bool, vers, suite uint16, master []byte, usedOldKey bool) {
+	c := &Conn{config: cfg}
+	st, ok := c.decryptTicket(ticket)
+	if !ok || st == nil {
+		return false, 0, 0, nil, false
+	}
+	return true, st.vers, st.cipherSuite, st.masterSecret, st.usedOldKey
+}
+
+// VerifTicketOf / VerifSetTicket access the opaque ticket held by a client session state.
+func VerifTicketOf(s *ClientSessionState) []byte { return s.sessionTicket }
+func VerifSetTicket(s *ClientSessionState, t []byte) *ClientSessionState {
+	c := *s
+	c.sessionTicket = t
+	return &c
+}
+
+// VerifSessionMaster exposes the master secret a client session state holds (to check that a resumed
+// connection really runs under the original secret).
+func VerifSessionMaster(s *ClientSessionState) (vers, suite uint16, master []byte) {
+	return s.vers, s.cipherSuite, s.masterSecret
+}
+
+// VerifSM4GCMSeal seals with the AEAD the SM4-GCM cipher suites use (4-byte implicit + 8-byte explicit nonce).
+func VerifSM4GCMSeal(key, nonce12, plaintext, aad []byte) []byte {
+	a := aeadSM4GCM(key, nonce12[:4])
+	return a.Seal(nil, nonce12[4:], plaintext, aad)
+}
+
+// VerifHalfConn is one direction of record protection, keyed directly (no handshake).
+type VerifHalfConn struct {
+	hc  halfConn
+	gcm bool
+}
+
+// VerifNewHalfConn builds a sending or receiving half connection for a GM cipher suite (version GMSSL).
+func VerifNewHalfConn(suiteID uint16, key, iv, macKey []byte, isRead bool) (*VerifHalfConn, error) {
+	var suite *cipherSuite
+	for _, s := range gmCipherSuites {
+		if s.id == suiteID {
+			suite = s
+		}
+	}
+	if suite == nil {
+		return nil, errors.New("verif: unknown GM suite")
+	}
+	h := &VerifHalfConn{}
+	if suite.aead != nil {
+		h.hc.prepareCipherSpec(VersionGMSSL, suite.aead(key, iv), nil)
+		h.gcm = true
+	} else {
+		h.hc.prepareCipherSpec(VersionGMSSL, suite.cipher(key, iv, isRead), suite.mac(VersionGMSSL, macKey))
+	}
+	if err := h.hc.changeCipherSpec(); err != nil {
+		return nil, err
+	}
+	return h, nil
+}
+
+// Seq returns the implicit sequence number.
+func (h *VerifHalfConn) Seq() uint64 {
+	var v uint64
+	for _, b := range h.hc.seq {
+		v = v<<8 | uint64(b)
+	}
+	return v
+}
+
+// Encrypt protects one record the way writeRecordLocked does (explicitIV is used for CBC; GCM uses the sequence number).
+func (h *VerifHalfConn) Encrypt(typ byte, payload, explicitIV []byte) []byte {
+	explicitIVLen := 16
+	if h.gcm {
+		explicitIVLen = 8
+	}
+	b := &block{}
+	b.resize(recordHeaderLen + explicitIVLen + len(payload))
+	b.data[0] = typ
+	b.data[1] = byte(VersionGMSSL >> 8)
+	b.data[2] = byte(VersionGMSSL & 0xff)
+	b.data[3] = byte(len(payload) >> 8)
+	b.data[4] = byte(len(payload))
+	if h.gcm {
+		copy(b.data[recordHeaderLen:], h.hc.seq[:])
+	} else {
+		copy(b.data[recordHeaderLen:recordHeaderLen+explicitIVLen], explicitIV)
+	}
+	copy(b.data[recordHeaderLen+explicitIVLen:], payload)
+	h.hc.encrypt(b, explicitIVLen)
+	return append([]byte{}, b.data...)
+}
+
+// Decrypt opens one record (header included); returns the payload, success and the alert value on failure.
+func (h *VerifHalfConn) Decrypt(record []byte) (payload []byte, ok bool, alertValue uint8) {
+	b := &block{data: append([]byte{}, record...)}
+	ok, off, al := h.hc.decrypt(b)
+	if !ok {
+		return nil, false, uint8(al)
+	}
+	return append([]byte{}, b.data[off:]...), true, 0
+}
